@@ -487,6 +487,10 @@ def compute_reproject_roi(
 
     pts_per_side = 5
 
+    if align == 0:
+        # 0 means no alignment, ``roi_from_points`` expects ``None`` for that
+        align = None
+
     tr = native_pix_transform(src, dst)
 
     if tr.linear is None:
